@@ -60,7 +60,58 @@ def events_for_case(o, cid, g, K, qs, ids):
         c08.probe(ev, s2, om, 2, K, g, qs)
     except Exception as ex:  # noqa
         e["exc"] = sd.exc_str(ex)
+    # history: other easy-sample counts are assigned to the object that was just queried
+    ep2, en2 = [(2, 0), (0, 3), (1, 2), (3, 1)][cid % 4]
+    if (ep2, en2) == (o["ep"], o["en"]):
+        en2 += 1
+    o2 = dict(o, ep=ep2, en=en2)
+    e = ev("SetEasy", h=1, ep=ep2, en=en2, post=dict(sd.EMPTY_POST))
+    try:
+        s.nb_easy_pos, s.nb_easy_neg = ep2, en2
+        e["post"] = sd.alpha_obj(s, sd.inv_map(g))
+        c08.probe(ev, s, o2, 1, K, g, qs)
+        om2 = materialise(o2)
+        e = ev("Derive", kind="materialise", h=1, h2=3, post=dict(sd.EMPTY_POST))
+        s3 = sd.build(om2, g)
+        e["post"] = sd.alpha_obj(s3, sd.inv_map(g))
+        c08.probe(ev, s3, om2, 3, K, g, qs)
+    except Exception as ex:  # noqa
+        e["exc"] = sd.exc_str(ex)
     return evs
+
+
+def big_pair_event(ids, cid, n, ep, en, sc, ec, seed):
+    """n scored samples per class (interleaved integers), ep / en easy samples: declared vs materialised"""
+    import numpy as np
+    from score_analysis import Scores
+    rnd = np.random.RandomState(seed)
+    e = {"id": next(ids), "cid": cid, "op": "big_pair", "exc": "", "conc": "big", "n": n, "ep": ep, "en": en,
+         "lo": 0, "hi": int((2 * n - 1) * 1000), "thrA": {}, "thrB": {}, "cmA": [], "cmB": []}
+    try:
+        pos, neg = np.arange(n) * 2.0 + 1.0, np.arange(n) * 2.0
+        if sc == "neg":
+            pos, neg = neg, pos
+        lo, hi = 0.0, 2.0 * n - 1.0
+        high = sc == "pos"
+        xp = (hi + 1 + np.arange(ep)) if high else (lo - 1 - np.arange(ep))
+        xn = (lo - 1 - np.arange(en)) if high else (hi + 1 + np.arange(en))
+        a = Scores(pos, neg, nb_easy_pos=ep, nb_easy_neg=en, score_class=sc, equal_class=ec)
+        b = Scores(np.concatenate([pos, xp]), np.concatenate([neg, xn]), score_class=sc, equal_class=ec)
+        fx = lambda t: [int(round(max(-2e6, min(2e6, float(x))) * 1000)) for x in np.asarray(t)]  # noqa
+        for m in sd.METRICS:
+            pop = {"tpr": n + ep, "fnr": n + ep, "tnr": n + en, "fpr": n + en}.get(m, 2 * n + ep + en)
+            ks = sorted(set(range(0, 30)) | {2 * pop - j for j in range(0, 30)}
+                        | {2 * e_ + j for e_ in (ep, en, pop - ep, pop - en, ep + en) for j in range(-24, 25)}
+                        | {int(x) for x in rnd.randint(0, 2 * pop, 12)})
+            rf = np.array([k / (2.0 * pop) for k in ks if 0 <= k <= 2 * pop])
+            e["thrA"][m] = fx(getattr(a, "threshold_at_" + m)(rf))
+            e["thrB"][m] = fx(getattr(b, "threshold_at_" + m)(rf))
+        th = np.concatenate([rnd.randint(0, 2 * n, 12) + rnd.choice([0.0, 0.5], 12), [0.0, 2.0 * n - 1.0]])
+        for key, s in (("cmA", a), ("cmB", b)):
+            e[key] = [[int(x[0, 0]), int(x[0, 1]), int(x[1, 0]), int(x[1, 1])] for x in s.cm(th).matrix]
+    except Exception as ex:  # noqa
+        e["exc"] = sd.exc_str(ex)
+    return e
 
 
 GAMMAS = [gamma.ident(), gamma.affine(2.5, -7.0), gamma.affine(0.1, 0.3), gamma.affine(3.0, 0.125)]
@@ -81,6 +132,12 @@ def run(ctx: core.Ctx):
             events += events_for_case(o, cid, g, K, qs, ids)
         if o["ep"] or o["en"]:
             ctx.nontrivial.add(json.dumps(o, sort_keys=True))
+    for k, (n, ep, en) in enumerate([(400000, 400000, 150000), (300000, 7, 600000)] if ctx.tier == "quick" else
+                                    [(400000, 400000, 150000), (300000, 7, 600000), (1000000, 1000000, 1000000),
+                                     (700000, 0, 350000)]):
+        events.append(big_pair_event(ids, len(cases), n, ep, en, ["pos", "neg"][k % 2], ["pos", "neg"][(k // 2 + 1) % 2],
+                                     ctx.seed + k))
+        cases.append({"kind": "big_pair", "n": n, "ep": ep, "en": en})
     for e in events[:2]:
         ctx.sample(e)
     ctx.judge("Trace_C08", events, cases=cases, batch=1500)
